@@ -38,6 +38,7 @@ def check(repo: Repo, rep: Report) -> None:
     rep.rule("N5-idle-restored", "idle restored under the lock in a finally around the drain", floor=1)
     rep.rule("N6-no-reacquire", "the non-reentrant lock is never re-acquired while held", floor=1)
     rep.rule("N7-per-thread", "CurrentThreadScheduler trampolines are per thread", floor=2)
+    rep.rule("N8-clamp-relative", "negative relative due times are clamped to zero (a late 'past' item must not overtake earlier ones)", floor=1)
     cls = repo.fn(T, "Trampoline")
     cl = ClassLocks(repo, cls, LOCKS, ["_idle", "_queue"])
     discipline(rep, cl, "L1-write-locked", "L2-read-locked", what=" (a second thread could run actions concurrently or lose an item)")
@@ -143,15 +144,44 @@ def check(repo: Repo, rep: Report) -> None:
     ok = ok and all(isinstance(r.node.value, ast.Name) for r in rets)
     rep.ob("N7-per-thread", gt, "trampoline looked up / stored under current_thread()", ok,
            "CurrentThreadScheduler does not resolve its trampoline by the calling thread: threads would share one queue")
-    loc = repo.fn(CT, "_Local")
-    ok = any(u(b) in ("local", "threading.local") for b in loc.node.bases) and any(
-        isinstance(s.node, ast.Assign) and any(u(t) == "self.tramp" for t in s.node.targets)
-        and isinstance(s.node.value, ast.Call) and call_name(s.node.value) == "Trampoline"
-        for s in sites(repo.fn(CT, "_Local.__init__")))
     sg = repo.fn(CT, "CurrentThreadSchedulerSingleton.get_trampoline")
-    ok2 = any(isinstance(s.node, ast.Return) and u(s.node.value).endswith("._local.tramp") for s in sites(sg))
-    rep.ob("N7-per-thread", sg, "singleton trampoline lives in a threading.local", ok and ok2,
-           "the singleton's trampoline is not thread-local")
+    rets = [s for s in sites(sg) if isinstance(s.node, ast.Return)]
+    ok = bool(rets)
+    why = ""
+    for r in rets:
+        v = r.node.value
+        good = False
+        # <Class>._local.tramp where _local = <threading.local subclass>() creating a Trampoline per thread
+        if isinstance(v, ast.Attribute) and isinstance(v.value, ast.Attribute):
+            holder = v.value.attr
+            scls = sg.parent
+            for n in scls.direct_nodes():
+                if isinstance(n, ast.Assign) and u(n.targets[0]) == holder and isinstance(n.value, ast.Call):
+                    lc = repo.resolve_expr(scls, n.value.func)
+                    if lc is not None and lc.is_class and any(u(b) in ("local", "threading.local") for b in lc.node.bases):
+                        init = lc.child("__init__")
+                        good = init is not None and any(isinstance(s.node, ast.Assign) and u(s.node.targets[0]) == f"self.{v.attr}"
+                                                        and isinstance(s.node.value, ast.Call) and call_name(s.node.value) == "Trampoline"
+                                                        for s in sites(init))
+        # map lookup keyed by current_thread()
+        if isinstance(v, ast.Name):
+            good = any(isinstance(s.node, ast.Assign) and u(s.node.targets[0]) == v.id and "current_thread" in
+                       " ".join(u(x.node.value) for x in sites(sg) if isinstance(x.node, ast.Assign)) for s in sites(sg))
+        if not good:
+            why = f"returns `{u(v)}`"
+        ok = ok and good
+    rep.ob("N7-per-thread", sg, "singleton trampoline is thread-local (threading.local / keyed by current_thread())", ok,
+           f"the singleton scheduler's trampoline is not resolved per thread ({why}): an instance used from a second thread "
+           f"shares the first thread's queue — its actions run later on the other thread")
+    rel = repo.fn(TS, "TrampolineScheduler.schedule_relative")
+    clamp = [s for s in sites(rel) if isinstance(s.node, ast.Call) and isinstance(s.node.func, ast.Name) and s.node.func.id == "max"
+             and any(u(a) in ("DELTA_ZERO", "timedelta(0)") for a in s.node.args) and any(rel.params[1] in u(a) for a in s.node.args)]
+    fwd = [s for s in sites(rel) if isinstance(s.node, ast.Call) and dotted(s.node.func) == "self.schedule_absolute"]
+    ok = len(clamp) == 1 and len(fwd) == 1 and isinstance(clamp[0].stmt, ast.Assign) and u(clamp[0].stmt.targets[0]) in u(fwd[0].node.args[0]) \
+        and "self.now" in u(fwd[0].node.args[0]) and clamp[0].index < fwd[0].index
+    rep.ob("N8-clamp-relative", rel, "duetime = max(DELTA_ZERO, to_timedelta(duetime)); schedule_absolute(now + duetime)", ok,
+           "a negative relative due time is not clamped to zero: the item is due in the past and overtakes actions scheduled "
+           "earlier for 'now' (first-scheduled-first among equal due times is lost)")
     sr = repo.fn(TS, "TrampolineScheduler.schedule_required")
     ok = any(isinstance(s.node, ast.Return) and u(s.node.value) == "self.get_trampoline().idle()" for s in sites(sr))
     rep.ob("N7-per-thread", sr, "schedule_required = trampoline.idle()", ok, "schedule_required does not reflect the trampoline's idle state")
